@@ -201,31 +201,36 @@ def listing (h : Host) : Kind → List Nat
   | .pre => 1 :: 2 :: h.preEntries
   | _ => 1 :: 2 :: h.dirEntries
 
+/-- fd_readdir once `DirentCache.Read` has returned the entries `names` (name lengths) -/
+def readdirEmit (m : Mem) (buf bufLen res : Nat) (names : List Nat) : List Res :=
+  match maxDirents names bufLen with
+  | none => rE .panic
+  | some (bufToWrite, direntCount, truncatedLen) =>
+    let bufused := if truncatedLen > 0 then bufLen else bufToWrite
+    if bufToWrite > 0 then
+      if !m.has buf bufToWrite then rE efault else
+      match writeDirents bufToWrite names direntCount truncatedLen with
+      | none => [{ err := .panic, writes := [Wr.region buf bufToWrite] }]
+      | some _ =>
+        if !m.has res 4 then [{ err := efault, writes := [Wr.region buf bufToWrite] }]
+        else [{ err := .errno 0, writes := [Wr.region buf bufToWrite, Wr.bytes res (bytesLE 4 bufused)] }]
+    else
+      if !m.has res 4 then rE efault else [{ err := .errno 0, writes := [Wr.bytes res (bytesLE 4 bufused)] }]
+
+/-- `countRead` of the dirent cache: 0 on a fresh cache, the whole listing on a completely read one -/
+def countRead (h : Host) (k : Kind) : Nat := if h.cacheFull then (listing h k).length else 0
+
 def fdReaddir (h : Host) (fds : Fds) (m : Mem) (fd buf bufLen cookie res : Nat) : List Res :=
   if bufLen < DirentSize then rE einval else
   match lookupFd fds fd with
   | none => rE ebadf
   | some k =>
     if !k.isDir then rE ebadf else                  -- ENOTDIR is mapped to EBADF
-    let all := listing h k
-    -- DirentCache.Read: on a fresh cache countRead = 0; on a completely read one countRead = len(all) and a
-    -- cookie of 0 rewinds (dump the cache, read again)
-    if cookie > (if h.cacheFull then all.length else 0) then rE enoent else
+    -- DirentCache.Read: a cookie beyond what has been read is ENOENT; a cookie of 0 on a read cache rewinds (dump
+    -- the cache, read again): the entries from `cookie` on, at most maxDirEntries of them
+    if cookie > countRead h k then rE enoent else
     let maxDirEntries := w32 (w32 (bufLen / DirentSize + 1) + 1)
-    let names := (all.drop cookie).take maxDirEntries
-    match maxDirents names bufLen with
-    | none => rE .panic
-    | some (bufToWrite, direntCount, truncatedLen) =>
-      let bufused := if truncatedLen > 0 then bufLen else bufToWrite
-      if bufToWrite > 0 then
-        if !m.has buf bufToWrite then rE efault else
-        match writeDirents bufToWrite names direntCount truncatedLen with
-        | none => [{ err := .panic, writes := [Wr.region buf bufToWrite] }]
-        | some _ =>
-          if !m.has res 4 then [{ err := efault, writes := [Wr.region buf bufToWrite] }]
-          else [{ err := .errno 0, writes := [Wr.region buf bufToWrite, Wr.bytes res (bytesLE 4 bufused)] }]
-      else
-        if !m.has res 4 then rE efault else [{ err := .errno 0, writes := [Wr.bytes res (bytesLE 4 bufused)] }]
+    readdirEmit m buf bufLen res (((listing h k).drop cookie).take maxDirEntries)
 
 /-! ### path functions -/
 
